@@ -20,7 +20,7 @@ func init() {
 		ID:    "C03",
 		Level: "model_checking",
 		Rule: "bounded-exhaustive: URL strings = every sequence of <=3 (thorough 4) fragments over a 46-fragment URL alphabet (schemes in several casings, ':' and its character references, tab/LF/CR and their references, C0 controls, NUL, DEL, backslash, percent-escapes, userinfo, query, fragment, IDN, Unicode spaces) " +
-			"and every byte string <=4 (thorough 5) over a 13-byte alphabet, placed in each of the 17 element/attribute positions the property lists (alone, and as the second or first of a duplicated attribute next to a valid / rejected / empty value), crossed with scheme allowlists {http,https,mailto} x relative on/off x custom check on http x scheme regexp x rewriter on/off. " +
+			"and every byte string <=4 (thorough 5) over a 13-byte alphabet, placed in each of the 17 element/attribute positions the property lists (alone, and as the second or first of a duplicated attribute next to a valid / rejected / empty value), plus data: URIs (every sequence <=4 over a 24-fragment data-URI alphabet under AllowDataURIImages policies), crossed with scheme allowlists {http,https,mailto} x relative on/off x custom check on http x scheme regexp x rewriter on/off. " +
 			"Oracle on every surviving value (as re-tokenised): no byte <=0x20 or 0x7f, WHATWG-style scheme (independent of net/url) on the allowlist and approved by the custom check, or relative only if allowed; with a rewriter every surviving src is the rewriter's result. " +
 			"non-trivial = the URL attribute was removed or rewritten.",
 		Assumptions: []string{
@@ -236,6 +236,25 @@ func runC03(c *run.Ctx) {
 				eval(deepMain, []byte("<"+p.el+" "+p.attr+"="+q1+" "+p.attr+"="+q2+" title=t>"), string(u))
 				eval(deepRest, []byte("<"+p.el+" "+p.attr+"="+q2+" title=t "+p.attr+"="+q1+">"), string(u))
 			}
+		}
+	})
+	// data: URIs (allowed only as base64 images by AllowDataURIImages; the one place where white space inside a URL is tolerated on input)
+	dataSpecs := buildAll([]spec.Spec{
+		{Name: "data-images", Base: "new", Calls: []C{attrsOn([]string{"src", "title"}, "", "img", "audio", "source", "input"), attrsOn([]string{"href"}, "", "a"), {Op: "AllowDataURIImages"}, opt("AllowRelativeURLs", false)}},
+		{Name: "data-images-ugc-rw", Base: "ugc", Calls: []C{{Op: "AllowDataURIImages"}, {Op: "RewriteSrc", Fn: "proxy"}}},
+		specByName("cmd-email"), specByName("ugc"),
+	})
+	dataAl := []string{"data:", "DATA:", "image/png", "image/svg+xml", "image/gif", "text/html", ";base64,", ";base64", ",", "iVBORw0KGgo=", "AAAA", "AA", " ", "\n", "\r", "\t", "#", "?", "x", "<script>", ";charset=utf-8", "%20", "&#10;", "="}
+	kdat := 4
+	if !c.Quick() {
+		kdat = 5
+	}
+	SeqsS(c, "urldata", dataAl, 1, kdat, func(u []byte, idx []int) {
+		if !strings.HasPrefix(strings.ToLower(string(u)), "data:") && len(idx) > 2 {
+			return // beyond two fragments only strings that start with the scheme
+		}
+		for _, p := range []urlPos{{"img", "src"}, {"a", "href"}, {"source", "src"}} {
+			eval(dataSpecs, mk(p, u), string(u))
 		}
 	})
 	nb := 4
